@@ -193,6 +193,10 @@ func genUniverse(r *rand.Rand, p profile, mutOK bool) Universe {
 		if mutOK && !es[i].FInv && chance(r, 0.3) {
 			es[i].Mut = true
 		}
+		// the manifests of this id arrive with an owning-inventory annotation on them
+		if chance(r, 0.15) {
+			es[i].PreOwner = 1 + b2i(chance(r, 0.33))
+		}
 		// spelling of the keep attribute: the two single spellings most of the time
 		if chance(r, 0.55) {
 			es[i].KeepVar = 3 + r.Intn(len(keepVariants)-3)
@@ -201,6 +205,17 @@ func genUniverse(r *rand.Rand, p profile, mutOK bool) Universe {
 	r.Shuffle(len(es), func(i, j int) { es[i], es[j] = es[j], es[i] })
 	if len(es) > 8 {
 		es = es[:8]
+	}
+	if chance(r, 0.15) {
+		// two identifiers that differ in the API group only (same kind name, namespace and name)
+		if len(es) > 6 {
+			es = es[:6]
+		}
+		a, b := Entry("Bar", invNS, "bar-x"), EntryOtherBar(invNS, "bar-x")
+		if chance(r, 0.5) {
+			[]*UEntry{&a, &b}[r.Intn(2)].Fin = true
+		}
+		es = append(es, a, b)
 	}
 	if len(es) < 2 {
 		es = append(es, Entry("ConfigMap", invNS, "cm-a"), Entry("ConfigMap", invNS, "cm-b"))
@@ -571,7 +586,33 @@ func genWait(r *rand.Rand, base WSched, prune bool, timeoutOn, varied bool) WSch
 	return w
 }
 
-func genEnv(r *rand.Rand, p profile, op *Opts, cur Cluster, probe RunResult) Env {
+// aliasTwins: apply objects that share their uid with a tracked live object outside the apply
+// set (the same object under another identifier: a prune candidate the CurrentUIDFilter spares).
+func aliasTwins(cur Cluster, o Opts, local []LObj) []int {
+	var out []int
+	if o.Destroy || !o.Prune || !cur.HasInv {
+		return nil
+	}
+	in := map[int]bool{}
+	for _, l := range local {
+		in[l.ID] = true
+	}
+	for _, l := range local {
+		c := cur.Find(l.ID)
+		if c == nil {
+			continue
+		}
+		for _, x := range cur.Objs {
+			if x.ID != l.ID && x.UID == c.UID && !in[x.ID] && containsInt(cur.Inv, x.ID) {
+				out = append(out, l.ID)
+				break
+			}
+		}
+	}
+	return out
+}
+
+func genEnv(r *rand.Rand, p profile, op *Opts, cur Cluster, probe RunResult, local []LObj) Env {
 	o := *op
 	env := Env{WatchErrAt: -1}
 	kinds := waitKinds(probe.Plan)
@@ -596,6 +637,44 @@ func genEnv(r *rand.Rand, p profile, op *Opts, cur Cluster, probe RunResult) Env
 		}
 		timeoutOn := (prune && o.PruneTimeout) || (!prune && o.RecTimeout)
 		env.Waits = append(env.Waits, genWait(r, base, prune, timeoutOn, p.varied))
+	}
+	// the applied twin of a uid alias: Current, Failed, InProgress until the timeout, or silence
+	for _, t := range aliasTwins(cur, *op, local) {
+		for k := range env.Waits {
+			if kinds[k] {
+				continue
+			}
+			var mine *SObs
+			for i := range probe.Waits[k].Deliv {
+				if probe.Waits[k].Deliv[i].ID == t {
+					mine = &probe.Waits[k].Deliv[i]
+				}
+			}
+			if mine == nil {
+				continue
+			}
+			mode := r.Intn(4)
+			if mode == 0 {
+				continue
+			}
+			var ds []SObs
+			for _, d := range env.Waits[k].Deliv {
+				if d.ID != t {
+					ds = append(ds, d)
+				}
+			}
+			switch mode {
+			case 1:
+				ds = append(ds, SObs{ID: t, St: SFailed, Body: true, UID: mine.UID, Gen: objGen})
+			case 2:
+				ds = append(ds, SObs{ID: t, St: SInProgress, Body: true, UID: mine.UID, Gen: objGen})
+			}
+			env.Waits[k].Deliv = ds
+			if mode >= 2 {
+				op.RecTimeout = true
+				env.Waits[k].End = WTimeout
+			}
+		}
 	}
 	// a stalled layer: one object of a wait that has a successor layer never
 	// reconciles and the wait times out, so the next layer meets a dependency
@@ -871,7 +950,10 @@ type collector struct {
 	results   []RunResult // kept to look for late requests at the end
 	execs     int
 	twice     int
-	hung      int // runs that hit the watchdog; after three, no more late scripts (each hang costs the watchdog period)
+	// reuse: one Applier and one Destroyer object serve all runs of the current history
+	// (sessB; sessA serves the first executions of the runs that are executed twice)
+	sessA, sessB *Session
+	hung         int // runs that hit the watchdog; after three, no more late scripts (each hang costs the watchdog period)
 }
 
 // run executes a scenario on the store; with checkBoth it is first executed
@@ -881,10 +963,10 @@ func (c *collector) run(st *Store, sc Scenario) RunResult {
 	var first *RunResult
 	c.execs++
 	if c.checkBoth && (c.execs%2 == 1 || c.runs < 40) {
-		r1 := ExecRun(st.Clone(), sc)
+		r1 := execRun(st.Clone(), sc, false, c.sessA)
 		first = &r1
 	}
-	res := ExecRun(st, sc)
+	res := execRun(st, sc, false, c.sessB)
 	c.execTime += time.Since(t0)
 	c.runs++
 	c.results = append(c.results, res)
@@ -1018,6 +1100,24 @@ func (c *collector) add(h History) {
 
 // ---- base histories and their variants -------------------------------------------------------------
 
+// reuse switches the current history to shared Applier / Destroyer objects; the
+// returned function ends it.
+func (c *collector) reuse() func() {
+	a, errA := NewSession()
+	b, errB := NewSession()
+	if errA != nil || errB != nil {
+		c.failures = append(c.failures, fmt.Sprintf("harness: session: %v %v", errA, errB))
+		return func() {}
+	}
+	c.sessA, c.sessB = a, b
+	c.sum.Count("reuse:history-with-one-applier-object")
+	return func() {
+		a.Close()
+		b.Close()
+		c.sessA, c.sessB = nil, nil
+	}
+}
+
 // fixedRun is a run of the corpus: objects and options are given, the
 // environment is derived from the probe (everything reconciles) plus the
 // given faults.
@@ -1028,7 +1128,8 @@ type fixedRun struct {
 	cancel   CancelPt
 	watchErr int // wait index + 1 (0 = none)
 	late     []LateSpec
-	stall    []int // ids that get no deliveries; their wait ends by its timeout
+	stall    []int          // ids that get no deliveries; their wait ends by its timeout
+	replace  map[int][]SObs // ids whose deliveries are replaced by the given ones
 }
 
 // dropStalled removes the deliveries of the stalled ids; their wait then ends by its timeout.
@@ -1045,8 +1146,15 @@ func dropStalled(ds []SObs, stall []int, end WEnd) ([]SObs, WEnd) {
 }
 
 func (c *collector) fixedHistory(u Universe, init Cluster, runs []fixedRun) {
+	c.fixedHistoryR(u, init, runs, false)
+}
+
+func (c *collector) fixedHistoryR(u Universe, init Cluster, runs []fixedRun, reuse bool) {
 	st := NewStore(u, init)
-	h := History{Univ: u, Initial: init}
+	h := History{Univ: u, Initial: init, Reuse: reuse}
+	if reuse {
+		defer c.reuse()()
+	}
 	for _, fr := range runs {
 		sc := Scenario{Univ: u, Local: fr.local, Opts: fr.opts}
 		probe := Probe(st, sc)
@@ -1056,7 +1164,29 @@ func (c *collector) fixedHistory(u Universe, init Cluster, runs []fixedRun) {
 		for k := range sc.Env.Waits {
 			w := &sc.Env.Waits[k]
 			w.End = WCancel
-			w.Deliv, w.End = dropStalled(w.Deliv, fr.stall, w.End)
+			for id, ds := range fr.replace {
+				var keep []SObs
+				hit := false
+				for _, d := range w.Deliv {
+					if d.ID == id {
+						hit = true
+					} else {
+						keep = append(keep, d)
+					}
+				}
+				if hit {
+					w.Deliv = append(keep, ds...)
+				}
+			}
+			if len(fr.replace) == 0 {
+				w.Deliv, w.End = dropStalled(w.Deliv, fr.stall, w.End)
+			} else {
+				for _, d := range w.Deliv {
+					if containsInt(fr.stall, d.ID) {
+						w.End = WTimeout // the replaced deliveries do not reconcile the object
+					}
+				}
+			}
 			if w.End == WTimeout && !fr.opts.RecTimeout && !fr.opts.PruneTimeout {
 				w.End = WCancel // nothing would ever end the wait
 			}
@@ -1248,6 +1378,65 @@ func (c *collector) corpus() {
 	c.fixedHistory(u, two, []fixedRun{{opts: Opts{Destroy: true, Prune: true, Policy: PMustMatch, PruneTimeout: true}, stall: []int{0, 1}, late: lateAll}})
 	c.fixedHistory(u, two, []fixedRun{{opts: Opts{Destroy: true, Prune: true, Policy: PMustMatch}, late: lateAll}})
 	c.fixedHistory(u, two, []fixedRun{{local: both2[:1], opts: Opts{Prune: true, Policy: PMustMatch, RecTimeout: true, PruneTimeout: true}, stall: []int{1}, late: lateAll}})
+	// 15. one Applier / Destroyer object for all runs of the history: the same objects applied
+	// twice (nothing may be remembered from the first run), prune, destroy, destroy again
+	twoObjs := []LObj{{ID: 0, Ver: 1}, {ID: 1, Ver: 1, Deps: []int{0}}}
+	plain := Opts{Prune: true, Policy: PMustMatch}
+	c.fixedHistoryR(u, Cluster{NextUID: 100}, []fixedRun{{local: twoObjs, opts: plain}, {local: twoObjs, opts: plain},
+		{local: twoObjs[:1], opts: plain}, {local: twoObjs, opts: plain}, {opts: Opts{Destroy: true, Prune: true, Policy: PMustMatch}},
+		{opts: Opts{Destroy: true, Prune: true, Policy: PMustMatch}}}, true)
+	c.fixedHistoryR(u, Cluster{NextUID: 100}, []fixedRun{{local: twoObjs, opts: Opts{Prune: true, Policy: PMustMatch, RecTimeout: true}},
+		{local: twoObjs, opts: Opts{Prune: true, Policy: PMustMatch, RecTimeout: true}, stall: []int{0}}}, true)
+	c.fixedHistoryR(um, Cluster{NextUID: 100}, []fixedRun{{local: mutSet, opts: applyM}, {local: mutSet, opts: applyM, stall: []int{1}}}, true)
+	// 16. manifests that arrive with an owning-inventory annotation (another inventory's id / ours)
+	pa, pb := Entry("ConfigMap", invNS, "cm-a"), Entry("ConfigMap", invNS, "cm-b")
+	pa.PreOwner, pb.PreOwner = 1, 2
+	up := NewUniverse([]UEntry{pa, pb})
+	c.fixedHistory(up, Cluster{NextUID: 100}, []fixedRun{{local: twoObjs, opts: plain}, {local: twoObjs, opts: plain}, {local: twoObjs[:1], opts: plain}})
+	c.fixedHistory(up, two, []fixedRun{{local: []LObj{{ID: 0, Ver: 2}, {ID: 1, Ver: 2}}, opts: Opts{Prune: true, Policy: PMustMatch, SSA: true}}})
+	// 17. a uid alias in the prune set while its applied twin reports Current / Failed / InProgress
+	// until the timeout / nothing
+	ua := NewUniverse([]UEntry{Entry("ConfigMap", invNS, "cm-a"), Entry("Secret", invNS, "sec-a")})
+	twins := Cluster{NextUID: 100, HasInv: true, Inv: []int{0, 1}, Objs: []CObj{
+		CObj{ID: 0, UID: 7, Owner: OOurs, Ver: 1}.Applied(), CObj{ID: 1, UID: 7, Owner: OOurs, Ver: 1}.Applied()}}
+	aliasRun := func(t bool) fixedRun {
+		return fixedRun{local: []LObj{{ID: 0, Ver: 2}}, opts: Opts{Prune: true, Policy: PMustMatch, RecTimeout: t}}
+	}
+	c.fixedHistory(ua, twins, []fixedRun{aliasRun(false)})
+	fr := aliasRun(false)
+	fr.replace = map[int][]SObs{0: {{ID: 0, St: SFailed, Body: true, UID: 7, Gen: objGen}}}
+	c.fixedHistory(ua, twins, []fixedRun{fr})
+	fr = aliasRun(true)
+	fr.replace = map[int][]SObs{0: {{ID: 0, St: SInProgress, Body: true, UID: 7, Gen: objGen}}}
+	fr.stall = []int{0}
+	c.fixedHistory(ua, twins, []fixedRun{fr})
+	fr = aliasRun(true)
+	fr.stall = []int{0}
+	c.fixedHistory(ua, twins, []fixedRun{fr})
+	// 18. two identifiers that differ in the API group only (x1 = Bar company.com, x2 = Bar other.example.com,
+	// same namespace and name), a third object depending on one of them; held by a finalizer, request rejected
+	for _, fin := range []bool{false, true} {
+		x1, x2 := Entry("Bar", invNS, "bar-x"), EntryOtherBar(invNS, "bar-x")
+		x2.Fin = fin
+		ux := NewUniverse([]UEntry{Entry("ConfigMap", invNS, "cm-a"), x1, x2}) // 0 = cm-a, 1 = x1, 2 = x2
+		live3 := func(dep int) Cluster {
+			return Cluster{NextUID: 100, HasInv: true, Inv: []int{0, 1, 2}, Objs: []CObj{
+				CObj{ID: 0, UID: 1, Owner: OOurs, Ver: 1, Deps: []int{dep}}.Applied(), CObj{ID: 1, UID: 2, Owner: OOurs, Ver: 1}.Applied(),
+				CObj{ID: 2, UID: 3, Owner: OOurs, Ver: 1}.Applied()}}
+		}
+		dT := Opts{Destroy: true, Prune: true, Policy: PMustMatch, PruneTimeout: true}
+		all3 := func(dep int) []LObj {
+			return []LObj{{ID: 0, Ver: 1, Deps: []int{dep}}, {ID: 1, Ver: 1}, {ID: 2, Ver: 1}}
+		}
+		for _, dep := range []int{1, 2} {
+			c.fixedHistory(ux, live3(dep), []fixedRun{{opts: dT}, {opts: dT}})
+			c.fixedHistory(ux, live3(dep), []fixedRun{{opts: dT, faults: []FAddr{{Kind: "FDelete", I: 1}}}})
+			c.fixedHistory(ux, live3(dep), []fixedRun{{opts: dT, faults: []FAddr{{Kind: "FDelete", I: 2, Err: 1}}}})
+			c.fixedHistory(ux, live3(dep), []fixedRun{{local: all3(dep)[:2], opts: Opts{Prune: true, Policy: PMustMatch, PruneTimeout: true}}})
+			c.fixedHistory(ux, Cluster{NextUID: 100}, []fixedRun{{local: all3(dep), opts: plain, faults: []FAddr{{Kind: "FApply", I: 3 - dep}}}})
+			c.fixedHistory(ux, Cluster{NextUID: 100}, []fixedRun{{local: all3(dep), opts: Opts{Prune: true, Policy: PMustMatch, RecTimeout: true}, stall: []int{3 - dep}}})
+		}
+	}
 	// a plain round trip: apply two, apply one (prune), destroy
 	c.fixedHistory(u, Cluster{NextUID: 100}, []fixedRun{
 		{local: []LObj{{ID: 0, Ver: 1}, {ID: 1, Ver: 1, Deps: []int{0}}}, opts: Opts{Prune: true, Policy: PMustMatch}},
@@ -1276,7 +1465,10 @@ func (c *collector) base(r *rand.Rand, p profile, budget *int) {
 	u := genUniverse(r, p, !allowDry)
 	init := genCluster(r, p, u)
 	st := NewStore(u, init)
-	h := History{Univ: u, Initial: init}
+	h := History{Univ: u, Initial: init, Reuse: chance(r, 0.5)}
+	if h.Reuse {
+		defer c.reuse()()
+	}
 	n := p.runsMin + r.Intn(p.runsMax-p.runsMin+1)
 	enumAt := -1
 	if p.faults == "enum" || p.faults == "pairs" {
@@ -1313,7 +1505,7 @@ func (c *collector) base(r *rand.Rand, p profile, budget *int) {
 		}
 		probe := Probe(st, sc)
 		c.probes++
-		sc.Env = genEnv(r, p, &sc.Opts, cur, probe)
+		sc.Env = genEnv(r, p, &sc.Opts, cur, probe, sc.Local)
 		genLate(r, p, &sc, probe, c.hung >= 3)
 		if k == enumAt {
 			c.variants(r, p, st, h, sc, probe, budget)
@@ -1352,6 +1544,11 @@ func endsFor(pr RunResult, o Opts) []WSched {
 // for "pairs", every pair of addresses of short runs) rejected. Each variant is
 // its own case: the initial cluster is the observed cluster before run k.
 func (c *collector) variants(r *rand.Rand, p profile, st *Store, h History, sc Scenario, probe RunResult, budget *int) {
+	// variants branch off the history: fresh Applier / Destroyer objects for each of their runs
+	sa, sb := c.sessA, c.sessB
+	c.sessA, c.sessB = nil, nil
+	defer func() { c.sessA, c.sessB = sa, sb }()
+	h.Reuse = false
 	start := st.Observe()
 	st.takeNotes()
 	var sets [][]FAddr
